@@ -1,2 +1,105 @@
 //! verif::unicode — guarded hooks (cfg rustybuzz_verif).
 #![allow(unused_imports)]
+use alloc::vec::Vec;
+
+use crate::hb::buffer::{hb_buffer_t, hb_glyph_info_t, GlyphPosition};
+use crate::hb::unicode::CharExt;
+use crate::BufferFlags;
+
+/// The real classification used by `init_unicode_props` (property C13).
+pub fn is_default_ignorable(c: char) -> bool {
+    c.is_default_ignorable()
+}
+
+/// The unicode props word (`var2` low half) computed by the real `init_unicode_props`, and
+/// the scratch flags it raises.
+pub fn init_unicode_props(c: char) -> (u16, u32) {
+    let mut info = hb_glyph_info_t::default();
+    info.glyph_id = c as u32;
+    let mut scratch = 0;
+    info.init_unicode_props(&mut scratch);
+    (info.unicode_props(), scratch)
+}
+
+/// A glyph as the default-ignorable passes see it (property C13).
+#[derive(Clone, Copy, Debug, PartialEq, Eq)]
+pub struct VGlyph {
+    pub glyph_id: u32,
+    pub cluster: u32,
+    pub mask: u32,
+    pub unicode_props: u16,
+    pub glyph_props: u16,
+    pub pos: [i32; 4], // x_advance, y_advance, x_offset, y_offset
+}
+
+fn load(buffer: &mut hb_buffer_t, glyphs: &[VGlyph]) {
+    buffer.ensure(glyphs.len());
+    buffer.len = glyphs.len();
+    buffer.clear_positions();
+    for (i, g) in glyphs.iter().enumerate() {
+        let mut info = hb_glyph_info_t::default();
+        info.glyph_id = g.glyph_id;
+        info.cluster = g.cluster;
+        info.mask = g.mask;
+        info.set_unicode_props(g.unicode_props);
+        info.set_glyph_props(g.glyph_props);
+        buffer.info[i] = info;
+        buffer.pos[i] = GlyphPosition {
+            x_advance: g.pos[0],
+            y_advance: g.pos[1],
+            x_offset: g.pos[2],
+            y_offset: g.pos[3],
+            ..GlyphPosition::default()
+        };
+    }
+}
+
+fn unload(buffer: &hb_buffer_t) -> Vec<VGlyph> {
+    (0..buffer.len)
+        .map(|i| VGlyph {
+            glyph_id: buffer.info[i].glyph_id,
+            cluster: buffer.info[i].cluster,
+            mask: buffer.info[i].mask,
+            unicode_props: buffer.info[i].unicode_props(),
+            glyph_props: buffer.info[i].glyph_props(),
+            pos: [
+                buffer.pos[i].x_advance,
+                buffer.pos[i].y_advance,
+                buffer.pos[i].x_offset,
+                buffer.pos[i].y_offset,
+            ],
+        })
+        .collect()
+}
+
+/// Runs the real `delete_glyphs_inplace` with the real default-ignorable filter on a fresh
+/// buffer (idx = 0, out_len = 0, as after positioning).
+pub fn delete_default_ignorables(level: u8, glyphs: &[VGlyph]) -> Vec<VGlyph> {
+    let mut buffer = hb_buffer_t::new();
+    buffer.cluster_level = level as _;
+    load(&mut buffer, glyphs);
+    buffer.delete_glyphs_inplace(crate::hb::ot_layout::_hb_glyph_info_is_default_ignorable);
+    unload(&buffer)
+}
+
+/// Runs the real `zero_width_default_ignorables` and then `hide_default_ignorables` of
+/// ot_shape.rs on the given glyphs. `flags` are `BufferFlags` bits, `scratch` the scratch flags,
+/// `invisible` the buffer's invisible-glyph override.
+pub fn default_ignorable_passes(
+    face: &crate::Face,
+    level: u8,
+    flags: u32,
+    scratch: u32,
+    invisible: Option<u16>,
+    glyphs: &[VGlyph],
+) -> Vec<VGlyph> {
+    let mut buffer = hb_buffer_t::new();
+    buffer.cluster_level = level as _;
+    buffer.flags = BufferFlags::from_bits_truncate(flags);
+    buffer.scratch_flags = scratch;
+    buffer.invisible = invisible.map(ttf_parser::GlyphId);
+    load(&mut buffer, glyphs);
+    crate::hb::ot_shape::verif_zero_width_default_ignorables(&mut buffer);
+    crate::hb::ot_shape::verif_hide_default_ignorables(&mut buffer, face);
+    unload(&buffer)
+}
